@@ -72,7 +72,7 @@ func cmdRun(args []string) {
 			continue
 		}
 		fn := P.Funcs[k]
-		if len(fn.Blocks) == 0 || inPlaceClosure(fn) || P.skipped(fn) != "" {
+		if len(fn.Blocks) == 0 || (inPlaceClosure(fn) && !P.specFor(fn).hasContract()) || P.skipped(fn) != "" {
 			continue
 		}
 		fns = append(fns, fn)
